@@ -23,7 +23,7 @@ func Checks() map[string]*simcore.Check {
 			Stub: []string{"connection (in-memory rpc.Conn with planned fragmentation, short reads, eof/reset)", "http.ResponseWriter (recorder) and request body", "test service methods (scheduler-owned)", "clock (synctest bubble)", "client (scripted bytes; learns subscription ids from the wire)"},
 		},
 		Perturbed: []string{"winner of a timeout firing at the same virtual instant as the method's return (handler sync.Once / batchCallBuffer mutex entry order)", "order of codec writes between two goroutines released by one event (serialised by jsonCodec.encMu, no gate inside geth)", "select choice in Client.dispatch between close and read error on Server.Stop"},
-		Runs:      map[string]int{"quick": 16000, "thorough": 600000},
+		Runs:      map[string]int{"quick": 32000, "thorough": 600000},
 		Gen:       Gen, Decode: Decode, Run: Run, Shrink: Shrink,
 		ProbeNames: []string{"timeout-fired-while-method-running", "same-instant-timeout-vs-return", "batch-too-large", "resp-too-large", "notify-after-response",
 			"call-in-flight-at-teardown", "write-rejected-after-close", "duplicate-id-in-batch", "parse-error", "answered-by-deadline", "unanswered-at-teardown", "idless-subscribe"},
